@@ -256,6 +256,11 @@ def call(da, op, arg):
             return s.split(fmin=float(F[0] + F[-1]) / 2 * 0.93)
         if arg == "inverted_f":
             return s.split(fmin=0.3, fmax=0.1)
+        if arg == "equal_f":        # "fmax needs to be greater than fmin": equal limits are rejected, on a grid node or between two
+            f = float(F[nf // 2]) if (nf + int(F[0] * 1000)) % 2 else float(F[0] + F[-1]) / 2 * 0.97
+            return s.split(fmin=f, fmax=f)
+        if arg == "equal_d":
+            return s.split(dmin=90.0, dmax=90.0)
         return s.split(dmin=200, dmax=100)
     if op == "scale_by_hs":
         return s.scale_by_hs("2*hs")
